@@ -300,20 +300,28 @@ def slice_(eng, base, lo, hi, node):
         raise Unsupported("slice of %r" % (c,))
     s = c.term
     n = z3.Length(s)
-    if lo is None:
+    # SMT-LIB extract(s,i,k) is empty for i<0, i>=|s| or k<=0 and stops at |s|: so only negative
+    # (from-the-end) bounds need translating; no clamping from above is required.
+    if lo is None or (isinstance(lo, Conc) and lo.v == 0):
         l = zint(0)
-    elif isinstance(lo, Conc) and lo.v >= 0:
-        l = z3.If(zint(lo.v) > n, n, zint(lo.v)) if lo.v > 0 else zint(0)
+    elif isinstance(lo, Conc) and lo.v > 0:
+        l = zint(lo.v)
+    elif isinstance(lo, Conc):
+        k = -lo.v
+        l = z3.If(n >= k, n - k, zint(0))
     else:
-        l = clamp_bound(n, eng.term(lo, INT))
+        lt = eng.term(lo, INT)
+        l = z3.If(lt < 0, z3.If(n + lt < 0, zint(0), n + lt), lt)
     if hi is None:
         h = n
-    elif isinstance(hi, Conc) and hi.v < 0:
-        k = -hi.v
-        h = z3.If(n >= k, n - k, zint(0))
+    elif isinstance(hi, Conc) and hi.v >= 0:
+        h = zint(hi.v)
+    elif isinstance(hi, Conc):
+        h = n - (-hi.v)
     else:
-        h = clamp_bound(n, eng.term(hi, INT))
-    ln = z3.If(h - l < 0, zint(0), h - l)
+        ht = eng.term(hi, INT)
+        h = z3.If(ht < 0, n + ht, ht)
+    ln = z3.simplify(h - l)
     return P(ty, z3.SubSeq(s, l, ln) if ty != STR else z3.SubString(s, l, ln))
 
 
